@@ -227,6 +227,7 @@ func main() {
 	genTables(root, out)
 	genConsts(repo, root, out)
 	genFacts(repo, root, out)
+	genLocks(root, out)
 	genC22(repo, root, out)
 	genResets(root, out)
 }
